@@ -71,7 +71,7 @@ def gen_params(rng, allow):
                 v = rng.choice([0, 1, -1, 7, 2147483647, -2147483648] if typ == "int" else [0, 1, -1, 9, 2147483648, -2147483649])
             ps.append(P(shape, typ, name, v, variant=(rng.choice([0, 0, 1, 2, 3]) if shape in ("ptr_inout", "ptr_out", "ref_inout") else 0)))
         elif shape in ("str_cref", "cstr_in", "str_inout"):
-            ps.append(P(shape, "string", name, rng.choice(["", "a", "hello", "two words", "trailing  ", "  lead", "x" * 15]),
+            ps.append(P(shape, "string", name, rng.choice(["", "a", "hello", "two words", "trailing  ", "  lead", "x" * 15, " ", "    "]),
                         variant=(rng.choice([0, 0, 2, 4, 5, 6, 7]) if shape == "str_inout" else 0)))
         elif shape == "str_out":
             ps.append(P(shape, "string", name, ""))
@@ -193,6 +193,7 @@ def callee_body(f, label):
 
 HPP_HEAD = r'''#pragma once
 #include <string>
+#include <vector>
 #include <cstddef>
 enum Color { RED, GREEN = 5, BLUE };
 class Thing {
@@ -630,8 +631,12 @@ def specials(rng):
               "fortran_generic": [{"decl": "(float *addr +rank(1)+deref(raw)+intent(in))"},
                                   {"decl": "(double *addr +rank(1)+deref(raw)+intent(in))"},
                                   {"decl": "(int *addr +rank(1)+deref(raw)+intent(in))"}]}]
+    decls.append({"decl": "int total_length(const std::vector<std::string> &names)"})
+    # an overload set in which a char pointer converts to the wrong candidate unless the wrapper rebuilds the std::string itself
+    decls += [{"decl": "int label(const std::string &name)"}, {"decl": "int label(bool flag)"}]
     mdecls = [{"decl": "int addmul(int a, int b = 2)"}]
-    hpp = ["int defs(int a, int b = 10, int c = 100);", "double defd(double x, double y = 0.0);",
+    hpp = ["int total_length(const std::vector<std::string> &names);", "int label(const std::string &name);", "int label(bool flag);",
+           "int defs(int a, int b = 10, int c = 100);", "double defd(double x, double y = 0.0);",
            "void eq_trace_twice(double v);",
            "template<typename T> T twice(T v) { eq_trace_twice((double)v); return (T)(v + v); }",
            "int *garr(int n);", "int *gmat(int nr, int nc);", "double *gptr(int n);",
@@ -647,6 +652,10 @@ def specials(rng):
            'long gen2(long a1, long a2) { std::cout << "callee gen2(" << a1 << "," << a2 << ")\\n"; return a1 * 1000 + a2; }',
            'double sum_typed(void *addr, int type, size_t size) { std::cout << "callee sum_typed(type=" << type << ",size=" << size << ")\\n"; double t = 0; '
            'for (size_t i = 0; i < size; ++i) t += type == 22 ? ((float *)addr)[i] : type == 23 ? ((double *)addr)[i] : type == 3 ? ((int *)addr)[i] : -1000.0; return t; }',
+           'int total_length(const std::vector<std::string> &names) { std::cout << "callee total_length("; int t = 0; '
+           'for (size_t i = 0; i < names.size(); ++i) { std::cout << "[" << names[i] << "]"; t += (int)names[i].size(); } std::cout << ")\\n"; return t; }',
+           'int label(const std::string &name) { std::cout << "callee label(string [" << name << "])\\n"; return 100 + (int)name.size(); }',
+           'int label(bool flag) { std::cout << "callee label(bool " << (flag ? 1 : 0) << ")\\n"; return flag ? 1 : 0; }',
            'int Thing::addmul(int a, int b) { std::cout << "callee Thing::addmul(" << a << "," << b << ")\\n"; return (v + a) * b; }']
 
     def dshow(label, expr, typ="int"):
@@ -677,6 +686,16 @@ def specials(rng):
         drv += ["    { int *r = %s; eq_begin(\"garr\"); eq_int(%d); for (int i = 0; i < %d; ++i) eq_int(r[i]); eq_end(); }" % (call1, n1, n1),
                 "    { int *r = %s; eq_begin(\"gmat\"); eq_int(%d); for (int i = 0; i < %d; ++i) eq_int(r[i]); eq_end(); }" % (callm, nr * nc, nr * nc),
                 "    { double *r = %s; eq_begin(\"gptr\"); eq_int(%d); for (int i = 0; i < %d; ++i) eq_double(r[i]); eq_end(); }" % (callp, max(n1, 2), max(n1, 2))]
+    # a vector of strings: every element is trimmed on its own, an all-blank element arrives empty
+    sv = [rng.choice(["ab", "", "c d", "wxyz", " lead"]) for _ in range(rng.choice([1, 2, 3]))] + [""]
+    rng.shuffle(sv)
+    svw = 5
+    lab = rng.choice(["abc", "", "q r"])
+    direct += dshow("label_s", "label(std::string(%s))" % cstr(lab)) + dshow("label_b", "label(true)")
+    cdrv += dshow("label_s", "EQ_label_0(%s)" % cstr(lab)) + dshow("label_b", "EQ_label_1(true)")
+    direct += dshow("tlen", "total_length(std::vector<std::string>{%s})" % ", ".join(cstr(x) for x in sv))
+    cdrv += dshow("tlen", "EQ_total_length_bufferify(%s, %d, %d)" % (cstr("".join(x.ljust(svw) for x in sv)), len(sv), svw))
+    fdecl += ["    character(len=%d) :: sp_sv(%d)" % (svw, len(sv))]
     fdecl += ["    integer(C_INT), allocatable :: sp_a1(:), sp_a2(:,:)", "    real(C_DOUBLE), pointer :: sp_p1(:)", "    integer :: sp_i, sp_j"]
 
     def fshow(label, stmt):
@@ -705,4 +724,8 @@ def specials(rng):
               "    call eq_end()"]
     fbody += ["    sp_p1 => gptr(%d_C_INT)" % max(n1, 2), "    call eq_begin(\"gptr\"//C_NULL_CHAR)", "    call eq_int(int(size(sp_p1), C_LONG))",
               "    do sp_i = 1, size(sp_p1)", "        call eq_double(sp_p1(sp_i))", "    end do", "    call eq_end()"]
+    fbody += ["    sp_i = label(%s)" % fstr(lab)] + fshow("label_s", f_show("int", "sp_i"))
+    fbody += ["    sp_i = label(.true.)"] + fshow("label_b", f_show("int", "sp_i"))
+    fbody += ["    sp_sv(%d) = %s" % (k + 1, fstr(x.ljust(svw))) for k, x in enumerate(sv)]
+    fbody += ["    sp_i = total_length(sp_sv)"] + fshow("tlen", f_show("int", "sp_i"))
     return {"decls": decls, "mdecls": mdecls, "hpp": hpp, "hmeth": hmeth, "cpp": cpp, "direct": direct, "c": cdrv, "f_decl": fdecl, "f_body": fbody}
